@@ -327,7 +327,7 @@ def main(tier, seed):
             'max_tasks': common.budget(tier, 7, 10),
             'n_shuffles': common.budget(tier, 2, 8),
             'dfs_cap': common.budget(tier, 40, 3000),
-            'time_budget': common.budget(tier, 80, 1500),
+            'time_budget': common.budget(tier, 60, 1500),
             'shrink_budget': common.budget(tier, 15, 80)}
     results = runner.run_shards('mv.props.c02', 'shard_main', 16, seed, tier,
                                 opts)
